@@ -10,8 +10,8 @@ CHECKS = {
          "bounded exhaustive enumeration of the real functions (explicit-state, complete within the stated box)", "3/C13"),
 }
 CHECKS["C08"] = ("E1-enum", "exploration",
-  "Bounded-exhaustive over operation sequences: every sequence of <=3 (thorough: 4 with --maxlen) store operations over 3 colliding keys, 2-3 values, ordinals {0,1,2} and delete_prefix, for every policy/value-type, from 3 pre-states, executed through the real host interface and Flush; every read at every ordinal compared with an independent reference model, and the delta list replayed on the pre-state.",
-  "Trusts refmodel.Store as the meaning of the policies; numeric alphabet restricted to exactly representable values; ordinals <= 3.",
+  "Bounded-exhaustive over operation sequences: every sequence of <=3 (thorough: 4 with --maxlen) store operations over 3 colliding keys, 2-3 values, ordinals {0,1,2} and delete_prefix, for every policy/value-type, from 3 pre-states, plus sequences with ordinals {0, 2^63, 2^64-1} and long blocks (13-16 operations on one key, every ordinal vector), executed through the real host interface and Flush; every read at every ordinal compared with an independent reference model, and the delta list replayed on the pre-state.",
+  "Trusts refmodel.Store as the meaning of the policies; numeric alphabet restricted to exactly representable values.",
   "bounded exhaustive enumeration of operation sequences on the real store against a reference model", "3/C08")
 CHECKS["C02"] = ("E1-enum", "exploration",
   "Bounded-exhaustive: every sequence of 4 (thorough 5) one-operation blocks and every 3-block sequence with a two-operation block, over 3 colliding keys and delete_prefix, for every policy/value type x every cut into segments x {full store in memory, full store saved+reloaded}; partials built through the real host interface, saved, reloaded and merged by the real Merge; result compared with the real sequential store and the reference model.",
@@ -19,14 +19,14 @@ CHECKS["C02"] = ("E1-enum", "exploration",
   "bounded exhaustive enumeration of block sequences x segment cuts on the real stores (differential + reference model)", "3/C02")
 CHECKS["C09"] = ("E1-enum", "exploration",
   "Bounded-exhaustive: every chain of 2 blocks of <=2 operations (thorough: 3 ordinals, + 3-block chains) for every policy/value type; the log recorded by a real execution is replayed with Reset+ApplyOps on a second store in the same pre-state; deltas compared one by one, content, size, and for partial stores DeletedPrefixes and the result of save+load+merge onto non-empty bases.",
-  "Mirrors the cached branch of exec.RunModule (Reset + ApplyOps) instead of calling it; RunModule itself is driven by the whole-system checks.",
+  "Store-level half mirrors the cached branch (Reset + ApplyOps); the second half drives the real exec.RunModule with a real StoreModuleExecutor, live (operations issued in call order) and from a cached log.",
   "bounded exhaustive enumeration of operation-log chains, differential replay-vs-execution on the real stores", "3/C09")
 CHECKS["C11"] = ("E4-histx", "model_checking",
-  "Explicit-state BFS (depth 5, thorough 6+) over the histories of one real FullKV per policy/value type: apply block / undo with recorded deltas / merge partial / save+load, states deduplicated on content+size+reversible stack, invariant SizeBytes()==sum(len k+len v) in every state; plus exhaustive squash-chain and 12-byte-limit sweeps. Every transition is a call into the real store.",
+  "Explicit-state BFS (depth 5, thorough 6+) over the histories of one real FullKV per policy/value type: apply block / undo with recorded deltas / merge partial / save+load, states deduplicated on content+size+reversible stack, invariant SizeBytes()==sum(len k+len v) in every state; plus exhaustive squash-chain and 12-byte-limit sweeps, plus the C03 fork histories through the real fork resolver and pipeline with the size oracle after every step. Every transition is a call into the real store.",
   "Menu of 4 blocks and 3 partials per combo; merges clear the reversible stack; limit sweep on canonical encodings only.",
   "explicit-state breadth-first search over store histories on the real implementation + bounded exhaustive sweeps", "2.4 E4, 3/C11")
 CHECKS["C10"] = ("E1-enum", "exploration",
-  "Bounded-exhaustive: every store content of <=2 (thorough 3) entries over binary key/value alphabets x every deleted-prefix list, written through the real host interface, saved and reloaded as FullKV and PartialKV; boundary sizes; every (start,end,kind,below) over a boundary set of block numbers up to 10 digits and every subset of 8 saved files through the real ListSnapshotFiles.",
+  "Bounded-exhaustive: every store content of <=2 (thorough 3) entries over binary key/value alphabets x every deleted-prefix list, written through the real host interface, saved and reloaded as FullKV and PartialKV; boundary sizes; every (start,end,kind,below) over a boundary set of block numbers up to 10 digits and every subset of 8 saved files through the real ListSnapshotFiles; small contents also with <=2 failed object writes (body consumed) and <=1 failed read (half delivered) on the way.",
   "parseFileName is private: the name->range parse is judged through ListSnapshotFiles on a local dstore; most contents go through an in-memory dstore.",
   "bounded exhaustive enumeration of contents, names and snapshot sets on the real save/load/list code", "3/C10")
 CHECKS["C18"] = ("E1-enum", "exploration",
@@ -34,11 +34,11 @@ CHECKS["C18"] = ("E1-enum", "exploration",
   "Trusts google.golang.org/protobuf as the wire-format reference.",
   "bounded exhaustive enumeration, differential between hand-written and generated/standard codecs", "3/C18")
 CHECKS["C12"] = ("E1-enum", "exploration",
-  "Bounded-exhaustive over (mode, segment size, ordered store initial blocks, output initial block, start, stop, final block) on boundary sets, ~8.6M tuples (thorough ~10^8), through the real BuildRequestDetails -> tier1 glue -> BuildTier1RequestPlan -> segmenters, against the covering conditions stated by the property; plus every cursor shape x resolver answer.",
+  "Bounded-exhaustive over (mode, segment size, ordered store initial blocks, output initial block, start, stop, final block) on boundary sets, ~8.6M tuples (thorough ~10^8), through the real BuildRequestDetails -> tier1 glue -> BuildTier1RequestPlan -> segmenters, against the covering conditions stated by the property (including: the segments handed to jobs cover the back-filled ranges and stop at the hand-off); plus every cursor shape x resolver answer.",
   "The five lines of glue of Tier1Service.blocks are replicated in the harness (cross-checked against SessionInit of whole-system runs); graphs are k stores + one map.",
   "bounded exhaustive enumeration of request configurations on the real resolution and planning functions", "3/C12")
 CHECKS["C14"] = ("E1-enum", "exploration",
-  "Bounded-exhaustive over module graphs: every module list of <=3 modules over the full per-module domain (11M graph x output x mode cases; thorough adds n=4 and n=5 on reduced domains, 190M cases) plus 5 families of 6-8 modules, through the real ValidateModules, NewModuleGraph and exec.NewOutputModuleGraph; the staging is judged against an independent DFS closure and the ordering invariants, with a per-case watchdog for termination.",
+  "Bounded-exhaustive over module graphs: every module list of <=3 modules over the full per-module domain (11M graph x output x mode cases; thorough adds n=4 and n=5 on reduced domains, 190M cases) plus 5 families of 6-8 modules, through the real ValidateModules, NewModuleGraph and exec.NewOutputModuleGraph; in dependency order and in reverse declaration order; the staging is judged against an independent DFS closure and the ordering invariants, with a per-case watchdog for termination; for graphs with index modules the executors are built through the real pipeline for every subset of precomputed indices (staging unchanged, one executor per staged module in layer order).",
   "Graph alphabet: one binary, one policy, names a..h; n>=6 only through hand-made families.",
   "bounded exhaustive enumeration of module graphs on the real staging code", "3/C14")
 CHECKS["C17"] = ("E1-enum", "exploration",
@@ -46,35 +46,35 @@ CHECKS["C17"] = ("E1-enum", "exploration",
   "In-process with recover + watchdog + heap guard instead of the designed sub-process sharding.",
   "bounded exhaustive enumeration of request messages on the real validation/graph/plan code, crash and hang oracle", "3/C17")
 CHECKS["C06"] = ("E1-enum", "exploration",
-  "Bounded-exhaustive over module graphs (n<=3 full domain; thorough n=4) and families: every single-field mutation of every module that keeps the graph valid and every identity-preserving transformation, with the real hash read from exec.NewOutputModuleGraph for every output module; oracle = changed exactly for the mutated module and its descendants (independent DFS), unchanged under renames, alias prefix, unrelated additions and binary re-indexing. Two known findings (input swap / retarget inside the ancestor set) are reported as KNOWN-FINDING.",
-  "Alias import is applied as the reader's prefix rule on the module list (the real Reader is not driven); unlisted fields carry no expectation.",
+  "Bounded-exhaustive over module graphs (n<=3 full domain; thorough n=4) and families: every single-field mutation of every module that keeps the graph valid and every identity-preserving transformation, with the real hash read from exec.NewOutputModuleGraph for every output module; oracle = changed exactly for the mutated module and its descendants (independent DFS), unchanged under renames, alias prefix, unrelated additions, binary re-indexing and (n<=2 and the families) import through the real manifest.Reader at depth 1 and 2 with 1-3 binaries. Two known findings (input swap / retarget inside the ancestor set) are reported as KNOWN-FINDING.",
+  "The real manifest.Reader is driven on package files written to a scratch directory for n<=2 graphs and the families (file I/O), the prefix rule alone on the others; unlisted fields carry no expectation.",
   "bounded exhaustive enumeration of graphs x mutations on the real hashing code", "3/C06")
 CHECKS["C15"] = ("E1-enum", "exploration",
   "Bounded-exhaustive differential check of the two filter evaluators: every expression string with <=3 (thorough 4) leaves over 3 keys with and/or/juxtaposition/parentheses, quoted keys and a key with a space, x every assignment of key subsets to the 3 blocks of a segment; bitmap evaluation vs per-block keys evaluation, BlockIndex.Skip vs SkipFromKeys, index.File save/load, repeated evaluation and non-mutation of the shared index.",
-  "Whole-system half: the index program served by the real tier1+tier2 with the index files absent (built in the request), alone, with everything, and missing while everything else is present; compared with each other and with the per-block reference.",
+  "Whole-system half: the index and index2 (two index modules in one job) programs served by the real tier1+tier2 with the index files absent (built in the request), alone, with everything, missing while everything else is present, and present for one of two index modules only; compared with each other and with the per-block reference.",
   "bounded exhaustive enumeration of expressions x key assignments, differential between the two real evaluators", "3/C15")
 CHECKS["C04"] = ("E3-sysrun", "exploration",
-  "Bounded-exhaustive over request configurations on the whole system (real Tier1Service.blocks, real Tier2Service.processRange in-process, real hashes, scripted modules): mode x segment size x module initial blocks x start x stop x final block on three programs; range, order, duplicates, gaps at the hand-off, cursors, and a resumed request from the cursor of every delivered final block compared with the original suffix.",
+  "Bounded-exhaustive over request configurations on the whole system (real Tier1Service.blocks, real Tier2Service.processRange in-process, real hashes, scripted modules): mode x segment size x module initial blocks x start x stop x final block on three programs; range, order, duplicates, gaps at the hand-off, cursors, and a resumed request from the cursor of every delivered final block compared with the original suffix; plus the block source shutting down cleanly at every block (tier1 stream and segment jobs): an error, never a silently truncated stream.",
   "Goroutine timing inside one request is not controlled (E2 does that for the scheduler); one effective worker; fork-free chain; derr back-off and dstore zstd options overlaid for speed.",
   "bounded exhaustive enumeration of configurations, each executed on the real tier1+tier2 implementation", "3/C04")
 CHECKS["C01"] = ("E3-sysrun", "exploration",
-  "Bounded-exhaustive differential check on the whole system: 7 (thorough 13) scripted module graphs x segment size x mode x (start,stop) shapes x final block x cache histories (empty, other range, dev-then-prod, another output module of the same graph, a one-field mutant of an ancestor run first on the same cache); every request's non-empty (number,id,payload) stream must equal the linear reference run of the real system and the reference interpreter. Payloads echo store reads and deltas.",
+  "Bounded-exhaustive differential check on the whole system: 10 (thorough 16) scripted module graphs x segment size x mode x (start,stop) shapes x final block x cache histories (empty, other range, dev-then-prod, another output module of the same graph, a one-field mutant of an ancestor run first on the same cache, an earlier request followed by the eviction of a file class); every request's non-empty (number,id,payload) stream must equal the linear reference run of the real system and the reference interpreter. Payloads echo store reads and deltas.",
   "Schedule dimension (completion order, workers) is the C05 explorer's; goroutine timing inside a run is not controlled; programs are scripted modules, not compiled WASM.",
   "bounded exhaustive enumeration of configurations and cache histories, differential between strategies of the real system + reference interpreter", "3/C01")
 CHECKS["C07"] = ("E3-sysrun", "fault_enumeration",
-  "Exhaustive enumeration of cache states: for each (program, request shape) the universe U = files of a complete run + the partial files of each segment job run alone; all 2^n subsets of U (n <= 11 quick, <= 16 thorough, Gray-code prefix beyond) laid out as the initial cache, plus one torn .tmp leftover per file; the request is served on each by the real tier1+tier2 and its stream, and every file it leaves behind (decoded), compared with the empty-cache run.",
+  "Exhaustive enumeration of cache states: for each (program, request shape) the universe U = files of a complete run + every file each segment job writes when run alone; all 2^n subsets of U (n <= 13 quick, <= 17 thorough; beyond: Gray-code prefix plus every subset with <=3 files present or missing) laid out as the initial cache, plus one torn .tmp leftover per file, plus one failing object write (the n-th of the request, every n); the request is served on each by the real tier1+tier2 and its stream, and every file it leaves behind (decoded), compared with the empty-cache run.",
   "Goroutine timing inside a run is not controlled; files do not vanish during a request; equivalence is per file name, not per set of names.",
   "exhaustive enumeration of crash/eviction states (file subsets + torn writes) on the real implementation, differential against the clean run", "3/C07")
 CHECKS["C05"] = ("E2-schedx", "model_checking",
-  "Explicit-state model checking of the real scheduler: BFS over every delivery order of the scheduler's own messages and job bodies, on the real Scheduler/Stages/WorkerPool/Walker built by BuildParallelProcessor, with real tier2 jobs and real merges; 28 grid configurations (1-2 store stages x 2-3 segments x 1-2 workers x empty/complete cache; thorough: 3 stages x 4 segments, 3 workers), the configurations whose stores all start above the hand-off, and every cache state of two C07 universes (256 initial caches); safety in every state and on every transition, unique terminal outcome compared with the sequential reference, deadlock and livelock (backward reachability) detection.",
-  "loop.EventLoop.Run is bypassed; asynchronous squasher writes are drained after each event; the partial-vs-full load race is decided by a store wrapper (full wins; thorough also partial wins); more than 2 identical pending wake-up messages are coalesced (cross-checked against the exact search with --cap 0).",
+  "Explicit-state model checking of the real scheduler: BFS over every delivery order of the scheduler's own messages and job bodies, on the real Scheduler/Stages/WorkerPool/Walker built by BuildParallelProcessor, with real tier2 jobs and real merges; grid configurations (1-2 store stages x 2-3 segments x 1-2 workers x empty/complete/partial-only/snapshot-hole caches; thorough: 3 stages x 4 segments, 3 workers), the configurations whose stores all start above the hand-off or later than the stores below, and every cache state of C07 universes (storemap: 128, samestage: 512 x the three outcomes of the squasher load race, samestage-0-3-0: 1024 in late-loader mode; thorough: 5 universes x 3 outcomes); merge bodies are events; safety in every state and on every transition (incl. the squasher in-memory store holds the content of the block it is labelled with), snapshot files at the end of the store range, unique terminal outcome compared with the sequential reference, deadlock and livelock (backward reachability) detection.",
+  "loop.EventLoop.Run is bypassed; asynchronous squasher writes are drained after each event; the partial-vs-full load race is decided by a store wrapper (full wins / partial wins / partial wins and the losing load completes during a later merge); more than 2 identical pending wake-up messages are coalesced (cross-checked against the exact search with --cap 0).",
   "explicit-state BFS over the implementation's own transition function (stateful model checking on the real code, successors by replay)", "2.4 E2, 3/C05")
 CHECKS["C16"] = ("E3-sysrun", "fault_enumeration",
-  "Exhaustive enumeration of fault placements: every multiset of <=2 (thorough 3) transient faults over the (job, attempt) sites of a request x 4 fault kinds, and a deterministic module failure at every block in every module, both modes; jobs run through the real RemoteWorker (retry loop, classification) against the real tier2 processRange and the real error mappings of both tiers; streams compared with the fault-free run.",
+  "Exhaustive enumeration of fault placements: every multiset of <=3 (thorough 4) transient faults over the (job, attempt) sites of a request x 4 fault kinds (+ a fifth, the worker answering Canceled, as first or second fault) on four programs (incl. a last stage fed from cached outputs and two modules in one layer), and a deterministic module failure at every block in every module, both modes; jobs run through the real RemoteWorker (retry loop, classification) against the real tier2 processRange and the real error mappings of both tiers; streams compared with the fault-free run.",
   "The gRPC transport is an in-process fake stream; goroutine timing inside a run is not controlled; back-off shortened by overlay.",
   "exhaustive enumeration of fault sequences injected at the worker transport of the real implementation", "3/C16")
 CHECKS["C03"] = ("E3-sysrun", "exploration",
-  "Bounded-exhaustive over histories: every arrival sequence of n<=7 (thorough 8) blocks above genesis where each block's parent is any earlier block (fork tree x arrival order, n! sequences), x finality policies and modes for the smaller n, pushed through the real bstream fork resolver and the real Pipeline.ProcessBlock; after every new/undo step every store's content and size are compared with the reference execution of the current canonical chain, and a client emulator replays the data/undo messages. Plus the E4 store-level BFS over apply/undo histories with the content oracle.",
+  "Bounded-exhaustive over histories: every arrival sequence of n<=7 (thorough 8) blocks above genesis where each block's parent is any earlier block (fork tree x arrival order, n! sequences), x finality policies and modes for the smaller n, 2- and 3-branch ladders beyond, requests starting 0-2 blocks above the first block, pushed through the real bstream fork resolver and the real Pipeline.ProcessBlock; after every new/undo step every store's content and size are compared with the reference execution of the current canonical chain, and a client emulator replays the data/undo messages. Plus the E4 store-level BFS over apply/undo histories with the content oracle.",
   "Goroutine timing inside a run is not controlled; no tier2 back-fill in these runs; sequences the resolver refuses are skipped.",
   "bounded exhaustive enumeration of fork histories on the real resolver+pipeline, reference-model oracle; explicit-state BFS for the store-level half", "3/C03")
 PENDING = {}
